@@ -64,6 +64,7 @@ SOURCES = [
     ('wv6routing', 'src/wire/ipv6routing.rs'),
     ('phy', 'src/phy/mod.rs'),
     ('time', 'src/time.rs'),
+    ('rand', 'src/rand.rs'),
 ]
 
 # names some model or theorem depends on; extended as models are added
@@ -86,6 +87,7 @@ REQUIRED = [
     'wtcp_HEADER_LEN', 'dns_MDNS_DNS_PORT',
     'cfg_IPV6_HBH_MAX_OPTIONS', 'wv6opt_DATA_LEN',
     'cubic_DEFAULT_MSS',
+    'cfg_IFACE_MAX_MULTICAST_GROUP_COUNT', 'cfg_IFACE_MAX_ADDR_COUNT', 'rand_M', 'rand_A',
 ]
 
 INT = r'(?:0x[0-9a-fA-F_]+|0b[01_]+|[0-9][0-9_]*)'
